@@ -1,7 +1,9 @@
 package checks
 
 import (
+	"encoding/json"
 	"fmt"
+	"sort"
 	"os"
 	"os/exec"
 	"path/filepath"
@@ -18,6 +20,8 @@ type cmdOutcome struct {
 	Lits map[string]int64
 	Desc string
 }
+
+var staleText = "#!/bin/bash\n" + strings.Repeat("echo STALE LINE OF AN EARLIER AND MUCH LONGER OUTPUT\n", 40)
 
 const (
 	goodProg = "x := 7000000\nfor i := 0; i < 2; i++ {\n\tprint(x + i)\n}\n"
@@ -38,9 +42,10 @@ func CheckC19(r *Run) int {
 	if !quick {
 		maxPairs = 4
 	}
-	inputs := []string{"in/a.tsh", "in/a.b.tsh", "in/noext", "in/my prog.tsh", "in/bad.tsh", "in/lexbad.tsh", "in/missing.tsh", "in"}
+	inputs := []string{"in/rel.1.0/build", "in/a.tsh", "in/a.b.tsh", "in/noext", "in/my prog.tsh", "in/bad.tsh", "in/lexbad.tsh", "in/missing.tsh", "in"}
 	outs := []string{"out", "out dir", "nodir", "in/a.tsh"}
 	var bads []cmdOutcome
+	probes := map[string][]string{}
 	okRuns, errRuns := 0, 0
 	mainFn := r.Eng.Pkg("").Func("main")
 	if mainFn == nil {
@@ -59,8 +64,10 @@ func CheckC19(r *Run) int {
 		c.FS.AddDir("/w/out")
 		c.FS.AddDir("/w/out dir")
 		// stale output files from an earlier run
-		c.FS.AddFile("/w/out/a.sh", gosym.Conc("STALE"))
-		c.FS.AddFile("/w/out/bad.sh", gosym.Conc("STALE"))
+		c.FS.AddFile("/w/out/a.sh", gosym.Conc(staleText))
+		c.FS.AddFile("/w/out/a.bat", gosym.Conc(staleText))
+		c.FS.AddFile("/w/out/bad.sh", gosym.Conc(staleText))
+		c.FS.AddFile("/w/in/rel.1.0/build", gosym.Conc(goodProg))
 	}
 	st := r.Eng.Explore(func(c *gosym.Ctx) interface{} {
 		setup(c)
@@ -87,7 +94,7 @@ func CheckC19(r *Run) int {
 		ins, os_ := inputs, outs
 		tys := []string{"bash", "batch", "sh", "Bash", ""}
 		if quick {
-			ins = []string{"in/a.tsh", "in/a.b.tsh", "in/my prog.tsh", "in/bad.tsh", "in/missing.tsh"}
+			ins = []string{"in/rel.1.0/build", "in/a.b.tsh", "in/my prog.tsh", "in/bad.tsh", "in/missing.tsh"}
 			os_ = []string{"out", "out dir", "nodir"}
 			tys = tys[:3]
 		}
@@ -122,6 +129,23 @@ func CheckC19(r *Run) int {
 			args = append(args, gosym.Conc("-t"))
 		}
 		c.Args = args
+		{
+			var as []string
+			okc := true
+			for _, a := range args {
+				g, ok := a.Go()
+				if !ok {
+					okc = false
+					break
+				}
+				as = append(as, g)
+			}
+			if okc {
+				if b, err := json.Marshal(as); err == nil {
+					c.Note("args:" + string(b))
+				}
+			}
+		}
 		before := map[string]gosym.Str{}
 		for p, s := range c.FS.Files {
 			before[p] = s
@@ -247,6 +271,16 @@ func CheckC19(r *Run) int {
 		}
 		return cmdOutcome{Kind: "ok-exit"}
 	}, gosym.ExploreOpts{Workers: r.Workers, TimeoutMS: 10000, Budget: gosym.Budget{MaxPaths: 2_000_000, Steps: 30_000_000}, OnPath: func(pr *gosym.PathResult) {
+		if pr.End == "unsupported" {
+			for _, n := range pr.Notes {
+				if strings.HasPrefix(n, "args:") {
+					var as []string
+					if json.Unmarshal([]byte(n[5:]), &as) == nil {
+						probes[strings.Join(as, "\x00")] = as
+					}
+				}
+			}
+		}
 		o, ok := pr.Ret.(cmdOutcome)
 		if !ok {
 			return
@@ -263,6 +297,24 @@ func CheckC19(r *Run) int {
 		}
 	}})
 	r.Absorb("H_C19_command_line", st, fmt.Sprintf("os.Args = up to %d option/value pairs plus an optional trailing singleton; short flags are two symbolic bytes over \"-iotx\", long and odd flags from menus; values from menus of %d input paths (several dots, no extension, blank, rejected programs, missing, directory), %d output paths and 5 target spellings; the program's integer literal is symbolic", maxPairs, len(inputs), len(outs)))
+	// paths the engine could not interpret (e.g. file operations without a model) are probed natively
+	var pkeys []string
+	for k := range probes {
+		pkeys = append(pkeys, k)
+	}
+	sort.Strings(pkeys)
+	probed := 0
+	for _, k := range pkeys {
+		if probed >= 60 {
+			break
+		}
+		probed++
+		b := cmdOutcome{Kind: "bad", What: "native probe: output file differs from the library result", Args: probes[k], Lits: map[string]int64{"lit0": 5}}
+		if confirmed, _ := confirmCmd(nat, b); confirmed {
+			bads = append(bads, b)
+		}
+	}
+	r.Cov("paths_decided_by_native_probe_only", probed)
 	seen := map[string]bool{}
 	validated := 0
 	for _, b := range bads {
@@ -336,7 +388,7 @@ func confirmCmd(nat *Native, b cmdOutcome) (bool, string) {
 		x = "5"
 	}
 	good := strings.ReplaceAll(goodProg, "7000000", x)
-	w := map[string]string{"in/a.tsh": good, "in/a.b.tsh": good, "in/noext": good, "in/my prog.tsh": good, "in/bad.tsh": badProg, "in/lexbad.tsh": lexBad, "out/a.sh": "STALE", "out/bad.sh": "STALE"}
+	w := map[string]string{"in/rel.1.0/build": good, "in/a.tsh": good, "in/a.b.tsh": good, "in/noext": good, "in/my prog.tsh": good, "in/bad.tsh": badProg, "in/lexbad.tsh": lexBad, "out/a.sh": staleText, "out/a.bat": staleText, "out/bad.sh": staleText}
 	for p, c := range w {
 		os.MkdirAll(filepath.Dir(filepath.Join(dir, p)), 0o777)
 		os.WriteFile(filepath.Join(dir, p), []byte(c), 0o666)
